@@ -127,9 +127,9 @@ func c03(c *ctx) {
 	codes := []int{0, 1, 999, 1000, 1005, 1011, 2999, 3000, 4999, 5000, 65535}
 	for _, code := range codes {
 		for ln := 0; ln <= 130; ln++ {
-			for variant := 0; variant < 2; variant++ {
+			for variant := 0; variant < 6; variant++ {
 				key := fmt.Sprintf("body/%d/%d/%d", code, ln, variant)
-				if !vh.Only(key) {
+				if !vh.Only(key) || (variant >= 2 && ln < 110) {
 					continue
 				}
 				reason := make([]byte, 0, ln)
@@ -137,9 +137,13 @@ func c03(c *ctx) {
 					for i := 0; i < ln; i++ {
 						reason = append(reason, 'a'+byte(i%26))
 					}
-				} else { // multi-byte characters so that a crop can split one
+				} else { // multi-byte characters so that a crop can split one: after 1, 2 or 3 of its bytes
+					ch := []string{"", "€", "é", "😀", "€", "😀"}[variant]
+					if variant >= 4 {
+						reason = append(reason, "ab"[:variant-3]...)
+					}
 					for len(reason) < ln {
-						reason = append(reason, []byte("€")...)
+						reason = append(reason, []byte(ch)...)
 					}
 					reason = reason[:ln]
 				}
